@@ -269,9 +269,12 @@ class ClassInfo:
                 return True
         return False
 
+    def is_namedtuple(self) -> bool:
+        return any((attr_chain(b) or "").split(".")[-1] == "NamedTuple" for b in self.base_exprs)
+
     def dataclass_fields(self):
         """[(name, default-expression or None)] of a @dataclass (bases first); None for ordinary classes"""
-        if not any(c.is_dataclass() for c in self.mro()):
+        if not any(c.is_dataclass() or c.is_namedtuple() for c in self.mro()):
             return None
         out = []
         for c in reversed(self.mro()):
